@@ -84,8 +84,9 @@ def choose_hits(ctx, cv, polygons, fixed=None):
     fixed = fixed or {}
     hits = [(fixed[n] if n in fixed else ctx.bool(f'hit{n}')) if has[n] else False for n in range(N)]
     chosen = [n for n in range(N) if has[n] and bool(hits[n])]         # forks
+    areal = ctx.bool('areal')           # the clip geometry is a polygon / box, or a line / points
     if ctx.symbolic:
         tree = geo.StubTree(polygons, {n: SymBool(n in chosen) for n in range(N) if has[n]})
         cv.__dict__['strtree'] = tree
-        return chosen, ['symbolic-geometry']
-    return chosen, geo.realise_hits(polygons, chosen)[:2]
+        return chosen, [geo.SymClip(polygons, [n in chosen for n in range(N)], False, areal)]
+    return chosen, geo.of_dimension(geo.realise_hits(polygons, chosen), areal)[:2]
